@@ -205,15 +205,23 @@ def run(tier, work, replay=None):
         ix = lambda name: findex(name, c["nm"])   # noqa
         adds = [e for e in r["events"] if isinstance(e, dict) and e.get("e") == "add_operation"]
         by_name = {e.get("op"): e for e in adds}
+        observable = True
         for k in range(1, len(c["ops"]) + 1):
             e = by_name.get(f"Op{k}")
-            if e is None or "unpacked" not in e or "mixins" not in e:
-                raise Machinery("probe could not observe add_operation accumulators (attribute renamed?)")
+            if e is None:
+                raise Machinery("probe did not see add_operation for every operation")
+            if "unpacked" not in e or "mixins" not in e:
+                observable = False        # private accumulators renamed / removed by a refactoring: judge what is public
             tr.append({"e": "add", "op": k})
         # accumulators are order-dependent only through union: compare after the last add
         last = adds[-1]
-        tr.append({"e": "accumulators", "unpacked": sorted(ix(x) for x in last["unpacked"]),
-                   "mixins": sorted(ix(x) for x in last["mixins"])})
+        if observable:
+            tr.append({"e": "accumulators", "unpacked": sorted(ix(x) for x in last["unpacked"]),
+                       "mixins": sorted(ix(x) for x in last["mixins"])})
+        else:
+            tr.append({"e": "accumulators_unobservable"})
+            v.note_drift("PackageGenerator accumulators (_unpacked_fragments / _fragments_used_as_mixins) are not observable any more; "
+                         "the fragments module, class order and bases are still compared with the specification")
         tr.append({"e": "generated", "order": [ix(n) for n in obs["order"]],
                    "frag_bases": sorted([ix(n), sorted(ix(b) for b in bs)] for n, bs in obs["frag_bases"].items()),
                    "op_bases": [[[[cl[0], sorted(ix(b) for b in cl[1])] for cl in fo["classes"]] for fo in opo] for opo in obs["ops"]]})
